@@ -46,9 +46,10 @@ JudgeHdc(r) ==
              LET c0 == r.sets[i][1]
                  own == ComponentOfFast(c0, asSets[i], r.shape, full)
              IN /\ asSets[i] \subseteq region
-                (* a set that is connected in itself lies in one component; otherwise *)
-                (* flood the region from one of its cells                              *)
-                /\ (own = asSets[i] \/
+                (* a set that is connected in itself (in particular a connected piece  *)
+                (* of the boundary) lies in one component; otherwise flood the region *)
+                (* from one of its cells                                               *)
+                /\ (asSets[i] \in bcomps \/ own = asSets[i] \/
                     asSets[i] \subseteq ComponentOfFast(c0, region, r.shape, full))>>,
     (* one coordinate set per connected piece of the boundary *)
     <<"OneSetPerBoundaryPiece", {asSets[i] : i \in 1..nsets} = bcomps /\ nsets = Cardinality(bcomps)>>,
